@@ -32,10 +32,25 @@ CoreAttempts ==
   \cup { [kind |-> "sys",   n |-> SIGSYS] }
 CoreChildren == { [child |-> "none", cn |-> 0], [child |-> "orphankilled", cn |-> SIGSEGV] }
 
-RealCases ==
-  UNION { UNION { { [runner |-> r, kind |-> a.kind, n |-> a.n, child |-> c.child, cn |-> c.cn, core |-> 0] : c \in Children(r, a) }
+\* cancel: the caller's context is cancelled around the end of the program.
+\*   afterend  container, sync after exec: the sync function returns (and cancels) only once the program has
+\*             ended by itself -- the host then finds "cancelled" and "result" pending together
+\*   race      every runner: cancel the moment the program announces its final attempt; repeated
+\* The verdict is still Classify of the ACTUAL end: the program's own, unless the cancellation killed it.
+CancelCases ==
+       { [runner |-> "cafter", kind |-> a.kind, n |-> a.n, child |-> "none", cn |-> 0, core |-> 0, cancel |-> "afterend", rep |-> 1] :
+            a \in { [kind |-> "exit", n |-> n] : n \in {0, 1, 3, 255} }
+               \cup { [kind |-> "raise", n |-> s] : s \in {SIGTERM, SIGSEGV, SIGXFSZ, SIGXCPU, SIGKILL, SIGSYS, 6} }
+               \cup { [kind |-> "fault", n |-> s] : s \in FaultSigs } }
+  \cup { [runner |-> r, kind |-> a.kind, n |-> a.n, child |-> "none", cn |-> 0, core |-> 0, cancel |-> "race", rep |-> i] :
+            r \in Runners, i \in 1..4,
+            a \in { [kind |-> "exit", n |-> 3], [kind |-> "exit", n |-> 0], [kind |-> "fault", n |-> SIGSEGV] } }
+
+PlainCases ==
+  UNION { UNION { { [runner |-> r, kind |-> a.kind, n |-> a.n, child |-> c.child, cn |-> c.cn, core |-> 0, cancel |-> "none", rep |-> 0] : c \in Children(r, a) }
                   : a \in Attempts(r) } : r \in Runners }
-  \cup { [runner |-> r, kind |-> "badexec", n |-> 0, child |-> "none", cn |-> 0, core |-> 0] : r \in Runners }
-  \cup { [runner |-> r, kind |-> a.kind, n |-> a.n, child |-> c.child, cn |-> c.cn, core |-> 1] :
+  \cup { [runner |-> r, kind |-> "badexec", n |-> 0, child |-> "none", cn |-> 0, core |-> 0, cancel |-> "none", rep |-> 0] : r \in Runners }
+  \cup { [runner |-> r, kind |-> a.kind, n |-> a.n, child |-> c.child, cn |-> c.cn, core |-> 1, cancel |-> "none", rep |-> 0] :
             r \in Runners, a \in CoreAttempts, c \in CoreChildren }
+RealCases == PlainCases \cup CancelCases
 =============================================================================
